@@ -17,7 +17,7 @@ RULE = ("split_sync: all 65536 int16 words (exhaustive) in natural, shuffled, co
         "step amplitudes and analog thresholding. Non-trivial: a train with >= 3 events on >= 2 lines; distinct = distinct "
         "(layout | file kind, line subset, slice, dtype) signature")
 ASSUMPTIONS = ["one digital sync word per sample (as in every fixture); 0/1 trains are given as signed or floating arrays"]
-REQUIRED = {"words_checked": 65536, "read_sync_checked": 10, "fronts_checked": 100, "analog_lines_checked": 4}
+REQUIRED = {"words_checked": 65536, "read_sync_checked": 10, "fronts_checked": 100, "fronts_2d_checked": 100, "analog_lines_checked": 4}
 CASE_TIMEOUT = 120.0
 EXHAUSTIVE = "split_sync over all 65536 words x 16 bits"
 
@@ -153,9 +153,21 @@ def run_case(case):
             r2 = U.rises(full, axis=0)
             res.check(sorted(zip(r2[0].tolist(), r2[1].tolist())) == sorted((p, ln) for p, ln, q in exp_pairs if q > 0), "rises:2d",
                       "2-D rises differ")
-            f2 = U.falls(np.ascontiguousarray(full.T).astype(np.int16), axis=-1)
-            res.check(sorted(zip(f2[1].tolist(), f2[0].tolist())) == sorted((p, ln) for p, ln, q in exp_pairs if q < 0), "falls:2d",
-                      "2-D falls differ")
+            # every detector x every way of naming the sample axis (int8 as read, and a wider dtype)
+            fullT = np.ascontiguousarray(full.T)
+            for arr, axis, sdim in ((full, 0, 0), (full, -2, 0), (fullT, 1, 1), (fullT, -1, 1), (full.astype(np.int16), 0, 0), (fullT.astype(np.float64), -1, 1)):
+                for fn, want in (("rises", 1), ("falls", -1), ("fronts", 0)):
+                    out = getattr(U, fn)(arr, axis=axis)
+                    if fn == "fronts":
+                        ind, sg = out
+                        got = sorted((int(ind[sdim][k]), int(ind[1 - sdim][k]), int(np.sign(sg[k]))) for k in range(len(sg)))
+                        expd = exp_pairs
+                    else:
+                        got = sorted(zip(out[sdim].tolist(), out[1 - sdim].tolist()))
+                        expd = sorted((p, ln) for p, ln, q in exp_pairs if q == want)
+                    res.check(got == expd, f"{fn}:2d-axis{'-first' if sdim == 0 else '-last'}",
+                              f"{kind}: {fn}(x{arr.shape} {arr.dtype}, axis={axis}) returned {len(got)} events, {len(expd)} written; first got {got[:3]} expected {expd[:3]}",
+                              counter="fronts_2d_checked")
             sr.close()
             if sum(len(v[0]) >= 3 for v in ev.values()) >= 2:
                 nt = 1
